@@ -11,19 +11,20 @@ ID = "C09"
 RULE = (
     "Part 'cons' (shards = 48 dialects x 6 shapes): (n, checklines) from 5 (quick) / 24 (thorough) pairs; the dialect reported by "
     "DataIterator(path) is compared with the generator's dialect (order under both window readings; the default dialect is accepted for "
-    "checklines 0), and must equal the dialect from a list of Feature objects, from the same text given as a string (from_string), of "
-    "the fresh FeatureDB and of the reopened one; an empty-attribute line inside the window must not pollute 'order'; "
-    "helpers.infer_dialect per line is compared with the expectation and must not depend on the caller's edits of an earlier answer. "
-    "Part 'route' (48 dialects x with/without an explicit parent line): fmt recovered, GFF3 vs GTF import semantics, force_gff applies "
-    "GFF3 semantics without changing the reported or a supplied dialect. Part 'mix' (shards = 7 dialect-key contrasts x length x first "
-    "line): every sequence of <= 5 (quick) / 6 (thorough) lines each choosing value A/B and one of 3 weights, later lines alternatively "
-    "an empty-attribute line without a vote; the winner reported by DataIterator(checklines=10) is compared with a reference vote (sum "
-    "of weights, ties to the first seen). Part 'supplied' (forms path, string, Feature list, generator x n in {1,3}): a supplied "
-    "dialect is used verbatim by DataIterator and create_db, the generator is not peeked, features carry it, feature count. Part "
-    "'corners' (1 shard, 6 executions): six single attribute columns at the corners of the inference rules (a repeated key whose first "
-    "occurrence has no value, GFF3 and GTF; '=' inside quoted GTF values; quoted values under key=value); helpers.infer_dialect must "
-    "report the stated keys (repeated keys, fmt, keyval separator, quoting, trailing semicolon). Non-trivial = a non-default dialect or "
-    "n > checklines+1 (cons); a mixture where both values occur; every route, supplied and corners execution."
+    "checklines 0), and must equal the dialect from a list of Feature objects (parsed lines; Features built from the raw attribute "
+    "text), from the same text given as a string (from_string), of the fresh FeatureDB and of the reopened one; an empty-attribute line "
+    "inside the window must not pollute 'order'; helpers.infer_dialect per line is compared with the expectation and must not depend on "
+    "the caller's edits of an earlier answer. Part 'route' (48 dialects x with/without an explicit parent line): fmt recovered, GFF3 vs "
+    "GTF import semantics, force_gff applies GFF3 semantics without changing the reported or a supplied dialect. Part 'mix' (shards = 7 "
+    "dialect-key contrasts x length x first line): every sequence of <= 5 (quick) / 6 (thorough) lines each choosing value A/B and one "
+    "of 3 weights, later lines alternatively an empty-attribute line without a vote; the winner reported by DataIterator(checklines=10) "
+    "is compared with a reference vote (sum of weights, ties to the first seen). Part 'supplied' (forms path, string, Feature list, "
+    "generator x n in {1,3}): a supplied dialect is used verbatim by DataIterator and create_db, the generator is not peeked, features "
+    "carry it, feature count. Part 'corners' (1 shard, 9 executions): nine single attribute columns at the corners of the inference "
+    "rules (a repeated key whose first occurrence has no value, GFF3 and GTF; '=' inside quoted GTF values; only empty quoted GTF "
+    "values; a first key starting with a digit or a non-ASCII letter; quoted values under key=value); helpers.infer_dialect must report "
+    "the stated keys (repeated keys, fmt, keyval / field separator, quoting, trailing semicolon). Non-trivial = a non-default dialect "
+    "or n > checklines+1 (cons); a mixture where both values occur; every route, supplied and corners execution."
 )
 ASSUMPTIONS = [
     "the peek window is read as 'checklines' or 'checklines+1' features (the statement does not pin it down): both readings of 'order' are accepted",
